@@ -81,7 +81,7 @@ class Heap:
                 s.mprotect_failed = True; s.protlog.append(('mprotect(FAILED)', p.obj, ln, s.prot[p.obj])); s.log.append('mprotect:FAIL'); return (1 << 32) - 1
         s.prot[p.obj] = prot; s.protlog.append(('mprotect', p.obj, ln, prot)); s.log.append('mprotect(%s,%s)' % (ln, prot)); return 0
 
-def fake_cache(it, mod, name='the_cache', key=b'', prog_size=1):
+def fake_cache(it, mod, name='the_cache', key=b'', prog_size=1, shared=False):
     """an initialised randomx_cache object (interpreter flavour): zeroed, memory set, empty key, every program = `prog_size` ISUB_R instructions"""
     tc = resolve(NamedT('struct.randomx_cache', mod)); o = tc.layout()[0]
     c = it.mem.alloc(tc.size(), name)
@@ -97,6 +97,7 @@ def fake_cache(it, mod, name='the_cache', key=b'', prog_size=1):
             it.mem.store(Ptr(name, base + 8 * j), 0, 1); it.mem.store(Ptr(name, base + 8 * j + 1), j % 8, 1); it.mem.store(Ptr(name, base + 8 * j + 2), (j + 1) % 8, 1)
     # empty reciprocal cache vector
     for k in range(3): it.mem.store(Ptr(name, o[6] + 8 * k), Ptr(None, 0), 8)
+    if shared: it.mem.share(name, name + '_memory')      # handed to VMs of several threads: VM-side code may only read it (C14 footprint)
     return c
 
 def run_ctors(it, mod):
@@ -128,8 +129,8 @@ def run_H6(ctx, case):
             elif entry == 'alloc_cache': r = it.call('randomx_alloc_cache', [flags])
             else:
                 cache = dataset = Ptr(None, 0)
-                c = fake_cache(it, mod)
-                d = it.mem.alloc(16, 'the_dataset'); dm = it.mem.alloc(P.DATASET_BASE + P.DATASET_EXTRA, 'dataset_memory'); it.mem.store(Ptr('the_dataset', 0), dm, 8)
+                c = fake_cache(it, mod, shared=True)
+                d = it.mem.alloc(16, 'the_dataset'); dm = it.mem.alloc(P.DATASET_BASE + P.DATASET_EXTRA, 'dataset_memory'); it.mem.store(Ptr('the_dataset', 0), dm, 8); it.mem.share('the_dataset', 'dataset_memory')
                 if flags & F['FULL_MEM']: dataset = d
                 else: cache = c
                 r = it.call('randomx_create_vm', [flags, cache, dataset])
@@ -224,13 +225,13 @@ def run_H7(ctx, case):
             flags = z3.BitVec('flags', 32)
             fk['pc'] += [flags & F['SECURE'] != 0, flags & F['JIT'] != 0, z3.ULT(flags, 256), flags & (F['FULL_MEM'] | F['HARD_AES'] | F['LARGE_PAGES']) == case['cls']]
             full = it.decide(z3.If(flags & F['FULL_MEM'] != 0, z3.BitVecVal(1, 1), z3.BitVecVal(0, 1)))
-            cache = fake_cache(it, mod); d = it.mem.alloc(16, 'the_dataset'); dm = it.mem.alloc(P.DATASET_BASE + P.DATASET_EXTRA, 'dataset_memory'); it.mem.store(Ptr('the_dataset', 0), dm, 8)
+            cache = fake_cache(it, mod, shared=True); d = it.mem.alloc(16, 'the_dataset'); dm = it.mem.alloc(P.DATASET_BASE + P.DATASET_EXTRA, 'dataset_memory'); it.mem.store(Ptr('the_dataset', 0), dm, 8); it.mem.share('the_dataset', 'dataset_memory')
             vm = it.call('randomx_create_vm', [flags, Ptr(None, 0) if full else cache, d if full else Ptr(None, 0)])
             if isinstance(vm, Ptr) and vm.obj is None: raise Exception('create_vm returned NULL without faults')
             seed = it.mem.alloc(64, 'seed'); out = it.mem.alloc(32, 'out'); inp = it.mem.alloc(16, 'inp')
             it.call('randomx_calculate_hash', [vm, inp, 16, out]); log.append('hash')
             if not full:
-                c2 = fake_cache(it, mod, 'cache2', key=b'k2'); it.call('randomx_vm_set_cache', [vm, c2]); log.append('set_cache')
+                c2 = fake_cache(it, mod, 'cache2', key=b'k2', shared=True); it.call('randomx_vm_set_cache', [vm, c2]); log.append('set_cache')
             else:
                 it.call('randomx_vm_set_dataset', [vm, d]); log.append('set_dataset')
             it.call('randomx_calculate_hash_first', [vm, inp, 16]); it.call('randomx_calculate_hash_next', [vm, inp, 16, out]); it.call('randomx_calculate_hash_last', [vm, out]); log.append('batch')
@@ -297,9 +298,9 @@ def run_H3(ctx, case):
         if kind in ('set_cache', 'create_vm'):
             la, lb = case['lens']
             keyC = [z3.BitVec('Ckey%d' % k, 8) for k in range(lb)]; keyV = [z3.BitVec('Vkey%d' % k, 8) for k in range(la)]
-            C = fake_cache(it, mod, 'C', key=keyC); dead = fake_cache(it, mod, 'DeadCache', key=[z3.BitVec('Dkey%d' % k, 8) for k in range(la)])
+            C = fake_cache(it, mod, 'C', key=keyC, shared=True); dead = fake_cache(it, mod, 'DeadCache', key=[z3.BitVec('Dkey%d' % k, 8) for k in range(la)])
             flags = F['JIT'] if case['jit'] else 0
-            boot = fake_cache(it, mod, 'BootCache', key=b'boot')
+            boot = fake_cache(it, mod, 'BootCache', key=b'boot', shared=True)
             vm = it.call('randomx_create_vm', [flags, boot if kind == 'set_cache' else C, Ptr(None, 0)])
             if kind == 'create_vm':
                 tag = 'create_vm(%s, C) keylen %d' % ('JIT' if case['jit'] else 'interpreted', lb)
@@ -413,7 +414,7 @@ def run_K1(ctx, case):
             it.hooks[nm % soft] = (lambda n_, s_: lambda s, a: ev.append((n_, a, s_)) and None)(short, soft)
     it.hooks['<indirect>'] = lambda s, fp, a: ev.append(('enter_code', [fp] + list(a))) and None
     full = bool(flags & F['FULL_MEM']); jit = bool(flags & F['JIT']); hard = bool(flags & F['HARD_AES'])
-    cache = fake_cache(it, mod); d = it.mem.alloc(16, 'the_dataset'); dm = it.mem.alloc(P.DATASET_BASE + P.DATASET_EXTRA, 'dataset_memory'); it.mem.store(Ptr('the_dataset', 0), dm, 8)
+    cache = fake_cache(it, mod, shared=True); d = it.mem.alloc(16, 'the_dataset'); dm = it.mem.alloc(P.DATASET_BASE + P.DATASET_EXTRA, 'dataset_memory'); it.mem.store(Ptr('the_dataset', 0), dm, 8); it.mem.share('the_dataset', 'dataset_memory')
     vm = it.call('randomx_create_vm', [flags, Ptr(None, 0) if full else cache, d if full else Ptr(None, 0)])
     L = vm_layout(mod); tm = resolve(NamedT('struct.randomx::MemoryRegisters', mod)).layout()[0]; tag = 'VM(flags=%d)' % flags
     def chk(c, what):
